@@ -230,7 +230,9 @@ def run_case(case, ctx):
     bound0 = sc.served0[("obj", scen.T)]
     errnos = ("EIO",) if ctx.tier == "quick" else ("EIO", "ENOSPC", "EACCES")
     ctx.evaluations -= 1
-    runs = itertools.chain(fault.faulted_runs(sc, errnos=errnos), fault.faulted_runs(sc, modes=("full",), errnos=("ENOSPC",)))
+    # (ENOENT once: the failure class Python turns into FileNotFoundError, which handlers like to treat as "already gone")
+    runs = itertools.chain(fault.faulted_runs(sc, errnos=errnos), fault.faulted_runs(sc, modes=("full",), errnos=("ENOSPC",)),
+                           fault.faulted_runs(sc, modes=(False,), errnos=("ENOENT",)))
     for inj, store, d, out in runs:
         ctx.count()
         ev = inj.fired
